@@ -1,0 +1,81 @@
+//go:build verif
+
+// Contracts (machine-checked by /verif/engine, see /verif/DESIGN.md). Comment-only file.
+package codec
+
+// ---- C02: frame decoding = vanilla acceptance rules ------------------------------------------------------------
+// Length prefix L (VarInt): L == 0 is an empty frame the caller skips; L < 0 or L > 2^21-1 is rejected BEFORE the
+// allocation; otherwise exactly L bytes are requested into a buffer of exactly L bytes.
+//@ func readVarIntFrame
+//@   props C02 C05
+//@   requires rwf(rd)
+//@   modifies rd.@rpos, payload[*]
+//@   at-call ReadVarIntReturnN as hdr: assert arg0 == rd
+//@   at-call Read as body: assert [guards-before-allocation] res(hdr, 2) == nil && res(hdr, 0) > 0 && res(hdr, 0) <= 2097151 && len(arg1) == res(hdr, 0) && arg0 == rd
+//@   ensures [wf] rwf(rd)
+//@   ensures [cap-is-2^21-1] MaximumFrameLength == 2097151
+//@   ensures [header-error-is-an-error] called(hdr) && (res(hdr, 2) != nil ==> err != nil && !called(body))
+//@   ensures [negative-or-oversized-rejected] res(hdr, 2) == nil && (res(hdr, 0) < 0 || res(hdr, 0) > MaximumFrameLength) ==> err != nil && !called(body)
+//@   ensures [empty-frame-is-skipped] res(hdr, 2) == nil && res(hdr, 0) == 0 ==> err == nil && len(payload) == 0 && !called(body)
+//@   ensures [body-error-is-an-error] called(body) && res(body, 1) != nil ==> err != nil
+//@   ensures [payload-is-the-body] called(body) && res(body, 1) == nil ==> err == nil && ref(payload) == ref(arg(body, 1)) && len(payload) == res(hdr, 0) && n == res(hdr, 1) + res(body, 0)
+
+// Compression off: the frame body is the payload. Compression on: claimed size C (VarInt) first; C < 0 rejected; C == 0 means
+// "not compressed" and is accepted iff the remaining body is not larger than the threshold (exactly the threshold is tolerated);
+// C > 0 goes to decompress with exactly C.
+//@ func (*Decoder).readPayload
+//@   props C02 C05
+//@   requires rwf(d.rd) && (d.zrd != nil ==> ref(d.zrd) != ref(d.rd))
+//@   ensures [wf] d.rd == old(d.rd) && rwf(d.rd) && (d.zrd != nil ==> ref(d.zrd) != ref(d.rd))
+//@   at-call readVarIntFrame as frame: assert arg0 == d.rd
+//@   at-call ReadVarIntReturnN as claim: assert [claim-only-with-compression] d.compression && res(frame, 2) == nil && len(res(frame, 0)) > 0
+//@   at-call Len as remaining: assert called(claim) && res(claim, 2) == nil && res(claim, 0) == 0
+//@   at-call Bytes as rest: assert [uncompressed-within-threshold] called(remaining) && res(remaining) <= d.compressionThreshold
+//@   at-call decompress as infl: assert [inflate-exactly-the-claim] called(claim) && res(claim, 2) == nil && res(claim, 0) > 0 && arg1 == res(claim, 0) && arg0 == d
+//@   ensures [frame-error-is-an-error] called(frame) && (res(frame, 2) != nil ==> err != nil)
+//@   ensures [no-compression-passes-body] res(frame, 2) == nil && !old(d.compression) ==> err == nil && ref(payload) == ref(res(frame, 0)) && len(payload) == len(res(frame, 0)) && !called(claim)
+//@   ensures [empty-frame-passes] res(frame, 2) == nil && len(res(frame, 0)) == 0 ==> err == nil && len(payload) == 0 && !called(claim)
+//@   ensures [claim-error-is-an-error] called(claim) && res(claim, 2) != nil ==> err != nil
+//@   ensures [negative-claim-rejected] called(claim) && res(claim, 2) == nil && res(claim, 0) < 0 ==> err != nil && !called(infl) && !called(rest)
+//@   ensures [uncompressed-above-threshold-rejected] called(claim) && res(claim, 2) == nil && res(claim, 0) == 0 ==> called(remaining) && (res(remaining) > old(d.compressionThreshold) ==> err != nil && !called(rest))
+//@   ensures [uncompressed-at-threshold-tolerated] called(remaining) && res(remaining) <= old(d.compressionThreshold) ==> err == nil && called(rest) && ref(payload) == ref(res(rest)) && len(payload) == len(res(rest))
+//@   ensures [compressed-goes-through-inflate] called(claim) && res(claim, 2) == nil && res(claim, 0) > 0 ==> called(infl) && ref(payload) == ref(res(infl, 0)) && err == res(infl, 1)
+
+// Claimed size below the threshold or above the direction cap (2 MiB from clients, 8 MiB from servers) is rejected before any
+// allocation; the buffer is exactly C bytes and filled completely; the stream must end there (one more byte = rejection).
+//@ func (*Decoder).decompress
+//@   props C02 C05
+//@   requires claimedUncompressedSize > 0
+//@   requires rwf(d.rd) && (d.zrd != nil ==> ref(d.zrd) != ref(d.rd)) && ref(rd) != ref(d.rd)
+//@   ensures [wf] d.rd == old(d.rd) && rwf(d.rd) && (d.zrd != nil ==> ref(d.zrd) != ref(d.rd))
+//@   at-call ReadFull as fill: assert [bounds-before-allocation] claimedUncompressedSize >= d.compressionThreshold && claimedUncompressedSize <= ite(d.direction == proto.ServerBound, 2097152, 8388608) && len(arg1) == claimedUncompressedSize && arg0 == d.zrd
+//@   at-call Read as probe: assert called(fill) && res(fill, 1) == nil && len(arg1) == 1 && arg0 == d.zrd
+//@   at-call Close as fin: assert called(probe) && res(probe, 0) <= 0
+//@   ensures [caps] ServerboundUncompressedCap == 2097152 && UncompressedCap == 8388608
+//@   ensures [below-threshold-rejected] claimedUncompressedSize < old(d.compressionThreshold) ==> err != nil && !called(fill)
+//@   ensures [above-cap-rejected] claimedUncompressedSize > ite(old(d.direction) == proto.ServerBound, 2097152, 8388608) ==> err != nil && !called(fill)
+//@   ensures [short-inflate-rejected] called(fill) && res(fill, 1) != nil ==> err != nil
+//@   ensures [long-inflate-rejected] called(probe) && res(probe, 0) > 0 ==> err != nil
+//@   ensures [exact-inflate-is-the-payload] called(fin) ==> ref(decompressed) == ref(arg(fill, 1)) && len(decompressed) == claimedUncompressedSize && err == res(fin)
+
+// Empty frames are skipped at most 11 times.
+//@ func (*Decoder).readPacket
+//@   props C02
+//@   maypanic
+//@   requires rwf(d.rd) && (d.zrd != nil ==> ref(d.zrd) != ref(d.rd))
+//@   loop 1: invariant retries >= 0 && retries <= 11 && rwf(d.rd) && (d.zrd != nil ==> ref(d.zrd) != ref(d.rd))
+//@   loop 1: decreases 11 - retries
+//@   at-call decodePayload as dec: assert len(arg1) > 0
+
+// The reader the decoder uses always completes its reads (io.ReadFull), so a frame body arrives whole however the
+// transport chunks it.
+//@ func (*fullReader).Read
+//@   props C01 C02
+//@   at-call ReadFull as full: assert arg0 == fr.Reader && ref(arg1) == ref(p) && len(arg1) == len(p)
+//@   ensures called(full) && result.0 == res(full, 0) && result.1 == res(full, 1)
+//@ func NewDecoder
+//@   props C01 C02
+//@   at-store rd: assert [reader-always-completes-reads] dyntype(value, "codec.fullReader")
+//@ func (*Decoder).SetReader
+//@   props C01 C02
+//@   at-store rd: assert [reader-always-completes-reads] dyntype(value, "codec.fullReader")
